@@ -17,6 +17,8 @@ var round2Docs = map[string]map[string]string{
 	"C24": {"C24.R5": "pairing: popped stream-expiry item ⇔ index entry", "C24.R6": "pairing: state entry delete ⇒ deadline record delete"},
 	"C15": {"C15.R6": "error discipline: a child's validation error is returned before the next child"},
 	"C14": {"C14.R6": "K2: the medium's delta base does not depend on the publication's delta flag"},
+	"C27": {"C27.R5": "K1: the control message is published before (and regardless of) the local hub operation"},
+	"C38": {"C38.R4": "K2: the shared position-check time is stamped only when a real check is made"},
 	"C31": {"C31.R3": "K9: base64 decode destination holds the decoded length of the source"},
 	"C29": {"C29.R5": "K9: a caller-supplied frame reader holds a whole control frame payload"},
 	"C22": {"C22.R4": "K4 who-may-call: the raw map channel options resolver"},
@@ -52,6 +54,10 @@ func hookRound2(c *Ctx, prop string) {
 		runBaseFollowsEveryPublication(c)
 	case "C16":
 		runPreparedDataComplete(c)
+	case "C27":
+		runControlBeforeLocal(c)
+	case "C38":
+		runThrottleStamp(c)
 	case "C31":
 		runBase64DecodeBuffer(c)
 	case "C29":
@@ -60,6 +66,83 @@ func hookRound2(c *Ctx, prop string) {
 		runResolverOnlyThroughValidate(c)
 	case "C02":
 		runPositionPair(c)
+	}
+}
+
+// runControlBeforeLocal (C27.R5): a node-level operation publishes its control message before it
+// touches the local hub, so the outcome on the calling node (an error from one local connection, for
+// example "already subscribed") can never decide whether the other nodes hear about the operation.
+func runControlBeforeLocal(c *Ctx) {
+	w := c.W
+	n := 0
+	for _, name := range []string{"(*Node).Subscribe", "(*Node).Unsubscribe", "(*Node).Disconnect", "(*Node).Refresh"} {
+		fn := w.Func("centrifuge", name)
+		if fn == nil {
+			continue
+		}
+		isPub := func(in ssa.Instruction) bool {
+			ci := asCall(in)
+			if ci == nil {
+				return false
+			}
+			cal := w.Callee(ci)
+			return cal != nil && cal.Signature.Recv() != nil && typeShort(cal.Signature.Recv().Type()) == "Node" && strings.HasPrefix(cal.Name(), "pub")
+		}
+		var hubCalls []ssa.CallInstruction
+		EachInstr(fn, func(in ssa.Instruction) {
+			ci := asCall(in)
+			if ci == nil {
+				return
+			}
+			cal := w.Callee(ci)
+			if cal != nil && cal.Signature.Recv() != nil && typeShort(cal.Signature.Recv().Type()) == "Hub" {
+				hubCalls = append(hubCalls, ci)
+			}
+		})
+		pubs := 0
+		EachInstr(fn, func(in ssa.Instruction) {
+			if isPub(in) {
+				pubs++
+			}
+		})
+		if !c.Anchor("C27.R5", name+": control publish and local hub call", pubs >= 1 && len(hubCalls) >= 1) {
+			continue
+		}
+		for _, h := range hubCalls {
+			n++
+			target := ssa.Instruction(h)
+			bad := PathQ{Stop: isPub, Goal: func(x ssa.Instruction) bool { return x == target }}.FromEntry(fn)
+			c.Check("C27.R5", h, "the control message is published before the local hub operation", bad == nil,
+				"the local operation reports the first error of any local connection; if it runs first and that error returns, the other nodes are never told, so the same call has a different effect depending on which node a connection lives on")
+		}
+	}
+	c.Anchor("C27.R5", "node-level operations with a local hub call", n >= 3)
+}
+
+// runThrottleStamp (C38.R4): CheckPosition throttles real position checks to one per check delay by
+// stamping positionCheckTime when it decides to check. Stamping on a throttled call turns the throttle
+// into a debounce: with several subscribers asking at staggered times the broker is never asked again
+// and a lost publication is never detected.
+func runThrottleStamp(c *Ctx) {
+	w := c.W
+	cp := w.Func("centrifuge", "(*channelMedium).CheckPosition")
+	if cp == nil {
+		return
+	}
+	stores := storesToField(cp, false, "channelMedium", "positionCheckTime")
+	if !c.Anchor("C38.R4", "store to positionCheckTime in CheckPosition", len(stores) >= 1) {
+		return
+	}
+	for _, st := range stores {
+		ok := Guarded(st, func(g Guard) bool {
+			b, isB := g.Cond.(*ssa.BinOp)
+			if !isB || !g.Pol {
+				return false
+			}
+			return (b.Op == token.GEQ || b.Op == token.GTR) && strings.Contains(D(b.X), "positionCheckTime")
+		})
+		c.Check("C38.R4", st, "shared position-check time stamped only when the elapsed-time test decided to check", ok,
+			"an unconditional stamp postpones the next real check on every throttled call: subscribers checking at staggered times keep pushing it out, the broker is never queried and a position loss is never detected")
 	}
 }
 
